@@ -1229,7 +1229,9 @@ def message_type_order(p) -> tuple[dict | None, str]:
                 else:
                     return ("table", base.id)
             t = src(base).replace(" ", "")
-            if t in ("[eforeinMessageType]", "list(MessageType)", "[*MessageType]"):
+            comp = isinstance(base, ast.ListComp) and len(base.generators) == 1 and not base.generators[0].ifs and isinstance(base.elt, ast.Name) \
+                and isinstance(base.generators[0].target, ast.Name) and base.elt.id == base.generators[0].target.id and src(base.generators[0].iter) == "MessageType"
+            if comp or t in ("list(MessageType)", "[*MessageType]", "tuple(MessageType)"):
                 return ("decl", None)
             return None
         if isinstance(e, ast.Subscript) and isinstance(e.value, ast.Name) and isinstance(e.slice, ast.Name) and e.slice.id == who:
